@@ -207,7 +207,7 @@ def r13_3(ctx, m, L):
                 exits0.append(st)
     ctx.check(not breaks and not rets and not exits0, "R13.3", L.where(), "the collection loop can end successfully only by having counted one sentinel per worker (no break/return/exit(0))", key_of(pf, f"success-exit:{norm(L.node.test)}:{len(breaks)}b{len(rets)}r{len(exits0)}e"), breaks=len(breaks), returns=len(rets), exit0=len(exits0))
     test = L.node.test
-    ok = isinstance(test, ast.Compare) and len(test.ops) == 1 and isinstance(test.ops[0], (ast.NotEq, ast.Lt)) and any(norm(x).startswith("len(") and norm(x)[4:-1] in m.proc_lists for x in [test.left] + test.comparators)
+    ok = rc.sentinel_guard(m, L) is not None
     ctx.check(ok, "R13.3", L.where(), "loop guard compares the sentinel count with the number of processes", key_of(pf, f"guard:{norm(test)}"), guard=norm(test))
 
 
